@@ -1166,7 +1166,9 @@ class Evaluator:
                     for s in pat.get("subs", []):
                         fv = v.fields.get(s["f"]) if s["f"] in v.fields else v.fields.get(str(s["idx"]))
                         if fv is not None and not _irrefutable(s["p"]):
-                            c = self.logic("and", c, self.pat_cond(s["p"], fv, env)[0])
+                            sc_, sb_ = self.pat_cond(s["p"], fv, env)
+                            binds.update(sb_)       # names bound inside a refutable sub-pattern (an or-pattern's alternative)
+                            c = self.logic("and", c, sc_)
                     return c, binds
                 return Cond("false"), binds
             # bind sub patterns to projections; refutable sub patterns refine the condition
@@ -1219,7 +1221,16 @@ class Evaluator:
                 c = self.logic("and", c, self.pat_cond(s_["p"], fv, env)[0])
             return c, binds
         if k == "Or":
-            cs = [self.pat_cond(p, v, env)[0] for p in pat["pats"]]
+            alts = [self.pat_cond(p, v, env) for p in pat["pats"]]
+            cs = [c_ for c_, b_ in alts]
+            # the names bound by the alternative that is decided to match (all alternatives bind the same names)
+            hit = [b_ for c_, b_ in alts if isinstance(c_, Cond) and c_.op == "true"]
+            if hit:
+                binds.update(hit[0])
+            elif alts:
+                live = [b_ for c_, b_ in alts if not (isinstance(c_, Cond) and c_.op == "false")]
+                if len(live) == 1:
+                    binds.update(live[0])
             return self.logic("or", *cs), binds
         return Cond("sym", "pat:%s(%s)" % (k, vkey(v))), binds
 
